@@ -11,5 +11,5 @@ CONSTANTS
   Script <- NoScript
   CopyKeep = {}
 VIEW View
-ACTION_CONSTRAINT Export
+ACTION_CONSTRAINT ExportSim
 CHECK_DEADLOCK FALSE
